@@ -49,8 +49,88 @@ structure WF (s : PState) : Prop where
   bound : ∀ p ∈ s.pid, p < s.npid
   hasAlive : ∃ c ∈ s.ivars, c.1 = "alive"
 
+/-! helper lemmas -/
+
+/-- `maskSel` is an order-preserving sublist -/
+theorem maskSel_sublist {α} (l : List α) (m : List Bool) : (maskSel l m).Sublist l := by
+  induction l generalizing m with
+  | nil => cases m <;> simp [maskSel]
+  | cons a as ih =>
+    cases m with
+    | nil => simp [maskSel]
+    | cons b bs =>
+      cases b
+      · simpa [maskSel] using (ih bs).cons a
+      · simpa [maskSel] using (ih bs)
+
+theorem maskSel_length_congr {α β} (l : List α) (l' : List β) (m : List Bool)
+    (h : l.length = l'.length) : (maskSel l m).length = (maskSel l' m).length := by
+  induction l generalizing l' m with
+  | nil =>
+    cases l' with
+    | nil => cases m <;> simp [maskSel]
+    | cons _ _ => simp at h
+  | cons a as ih =>
+    cases l' with
+    | nil => simp at h
+    | cons a' as' =>
+      cases m with
+      | nil => simp [maskSel]
+      | cons b bs =>
+        have := ih as' bs (by simpa using h)
+        cases b <;> simp [maskSel, this]
+
+theorem maskSel_all_true {α} (l : List α) (m : List Bool) (hl : l.length ≤ m.length)
+    (hm : m.all id = true) : maskSel l m = l := by
+  induction l generalizing m with
+  | nil => cases m <;> simp [maskSel]
+  | cons a as ih =>
+    cases m with
+    | nil => simp at hl
+    | cons b bs =>
+      simp only [List.all_cons, Bool.and_eq_true, id] at hm
+      simp [maskSel, hm.1, ih bs (by simpa using hl) hm.2]
+
+theorem expandArg_length (n : Nat) (a : Arg) : (expandArg n a).length = n := by
+  cases a with
+  | scalar v => simp [expandArg]
+  | array vs => simp only [expandArg]; split <;> simp [*]
+
+theorem append_ok (s s' : PState) (args : List (String × Arg)) (h : s.append args = .ok s') :
+    ∃ (n : Nat) (valueOf : String → Arg), s' = { s with
+      pid := s.pid ++ (List.range n).map (· + s.npid),
+      npid := s.npid + n,
+      ivars := s.ivars.map (fun c => (c.1, c.2 ++ expandArg n (valueOf c.1))),
+      pvars := s.pvars.map (fun c => (c.1, c.2 ++ expandArg n (valueOf c.1))) } := by
+  unfold PState.append at h
+  simp only at h
+  split at h
+  · cases h
+  · split at h
+    · cases h
+    · rename_i n _
+      injection h with h
+      exact ⟨n, (fun nm => match lookup args nm with
+        | some a => a
+        | none => match lookup s.defaults nm with
+          | some v => Arg.scalar v
+          | none => Arg.scalar Val.nan), h.symm⟩
+
+
 theorem wf_init (ei ep : List String) (d : List (String × Val)) : WF (PState.init ei ep d) := by
-  sorry
+  refine ⟨?_, ?_, ?_, ?_, ?_⟩
+  · intro c hc
+    simp only [PState.init, List.mem_map] at hc
+    obtain ⟨n, _, rfl⟩ := hc
+    rfl
+  · intro c hc
+    simp only [PState.init, List.mem_map] at hc
+    obtain ⟨n, _, rfl⟩ := hc
+    rfl
+  · simp [PState.init]
+  · intro p hp
+    simp [PState.init] at hp
+  · exact ⟨("alive", []), by simp [PState.init, mandatory], rfl⟩
 
 /-- **pid_fresh**: a successful append of `n` particles hands out exactly
     `npid, …, npid+n−1`, appended after the existing ones, and advances `npid` by `n`. -/
@@ -58,27 +138,211 @@ theorem pid_fresh (s s' : PState) (args : List (String × Arg)) (h : s.append ar
     ∃ n, s'.pid = s.pid ++ (List.range n).map (· + s.npid) ∧ s'.npid = s.npid + n ∧
       (∀ c ∈ s'.ivars, ∃ c0 ∈ s.ivars, c0.1 = c.1 ∧ c.2.length = c0.2.length + n ∧ c0.2 <+: c.2) ∧
       (∀ c ∈ s'.pvars, ∃ c0 ∈ s.pvars, c0.1 = c.1 ∧ c.2.length = c0.2.length + n ∧ c0.2 <+: c.2) := by
-  sorry
+  obtain ⟨n, valueOf, rfl⟩ := append_ok s s' args h
+  refine ⟨n, rfl, rfl, ?_, ?_⟩
+  · intro c hc
+    simp only [List.mem_map] at hc
+    obtain ⟨c0, hc0, rfl⟩ := hc
+    exact ⟨c0, hc0, rfl, by simp [expandArg_length], List.prefix_append _ _⟩
+  · intro c hc
+    simp only [List.mem_map] at hc
+    obtain ⟨c0, hc0, rfl⟩ := hc
+    exact ⟨c0, hc0, rfl, by simp [expandArg_length], List.prefix_append _ _⟩
+
+theorem wf_append (s s' : PState) (args : List (String × Arg)) (h : WF s)
+    (ha : s.append args = .ok s') : WF s' := by
+  obtain ⟨n, valueOf, rfl⟩ := append_ok s s' args ha
+  refine ⟨?_, ?_, ?_, ?_, ?_⟩
+  · intro c hc
+    simp only [List.mem_map] at hc
+    obtain ⟨c0, hc0, rfl⟩ := hc
+    simp [expandArg_length, h.ilen c0 hc0]
+  · intro c hc
+    simp only [List.mem_map] at hc
+    obtain ⟨c0, hc0, rfl⟩ := hc
+    simp [expandArg_length, h.plen c0 hc0]
+  · simp only
+    rw [List.pairwise_append]
+    refine ⟨h.sorted, ?_, ?_⟩
+    · rw [List.pairwise_map]
+      exact List.pairwise_lt_range.imp (by intro a b hab; omega)
+    · intro a ha b hb
+      simp only [List.mem_map, List.mem_range] at hb
+      obtain ⟨j, _, rfl⟩ := hb
+      have := h.bound a ha
+      omega
+  · intro p hp
+    simp only [List.mem_append, List.mem_map, List.mem_range] at hp
+    rcases hp with hp | ⟨j, hj, rfl⟩
+    · have := h.bound p hp
+      show p < s.npid + n
+      omega
+    · show j + s.npid < s.npid + n
+      omega
+  · obtain ⟨c, hc, hn⟩ := h.hasAlive
+    exact ⟨_, List.mem_map_of_mem hc, hn⟩
+
+theorem wf_kill (s : PState) (m : List Bool) (h : WF s) : WF (s.kill m) := by
+  refine ⟨?_, h.plen, h.sorted, h.bound, ?_⟩
+  · intro c hc
+    simp only [PState.kill, List.mem_map] at hc
+    obtain ⟨c0, hc0, rfl⟩ := hc
+    have := h.ilen c0 hc0
+    show _ = s.pid.length
+    split
+    · simp only [List.length_map, List.length_zip, List.length_append, List.length_replicate]
+      omega
+    · exact this
+  · obtain ⟨c, hc, hn⟩ := h.hasAlive
+    refine ⟨_, List.mem_map_of_mem (f := _) hc, ?_⟩
+    show (if c.1 == "alive" then _ else _ : String × Column).1 = "alive"
+    split <;> exact hn
+
+theorem wf_compactify (s : PState) (h : WF s) : WF s.compactify := by
+  unfold PState.compactify
+  simp only
+  split
+  · exact h
+  · refine ⟨?_, h.plen, ?_, ?_, ?_⟩
+    · intro c hc
+      simp only [List.mem_map] at hc
+      obtain ⟨c0, hc0, rfl⟩ := hc
+      exact maskSel_length_congr _ _ _ (h.ilen c0 hc0)
+    · exact h.sorted.sublist (maskSel_sublist _ _)
+    · intro p hp
+      exact h.bound p ((maskSel_sublist _ _).subset hp)
+    · obtain ⟨c, hc, hn⟩ := h.hasAlive
+      exact ⟨_, List.mem_map_of_mem hc, hn⟩
+
+theorem wf_setitem (s s' : PState) (v : String) (vals : Column) (h : WF s)
+    (hl : LengthKeeping s (.setitem v vals)) (hs : s.setitem v vals = .ok s') : WF s' := by
+  unfold PState.setitem at hs
+  split at hs
+  · injection hs with hs
+    subst hs
+    refine ⟨?_, h.plen, h.sorted, h.bound, ?_⟩
+    · intro c hc
+      simp only [List.mem_map] at hc
+      obtain ⟨c0, hc0, rfl⟩ := hc
+      show _ = s.pid.length
+      split
+      · rename_i heq
+        rw [← h.ilen c0 hc0]
+        exact hl.1 c0 hc0 (by simpa using heq)
+      · exact h.ilen c0 hc0
+    · obtain ⟨c, hc, hn⟩ := h.hasAlive
+      refine ⟨_, List.mem_map_of_mem (f := _) hc, ?_⟩
+      show (if c.1 == v then _ else _ : String × Column).1 = "alive"
+      split <;> exact hn
+  · split at hs
+    · injection hs with hs
+      subst hs
+      refine ⟨h.ilen, ?_, h.sorted, h.bound, h.hasAlive⟩
+      intro c hc
+      simp only [List.mem_map] at hc
+      obtain ⟨c0, hc0, rfl⟩ := hc
+      show _ = s.npid
+      split
+      · rename_i heq
+        rw [← h.plen c0 hc0]
+        exact hl.2 c0 hc0 (by simpa using heq)
+      · exact h.plen c0 hc0
+    · cases hs
 
 /-- **wf_preserved** (one step) -/
 theorem wf_step (s : PState) (op : Op) (h : WF s) (hl : LengthKeeping s op) : WF (applyOp s op) := by
-  sorry
+  cases op with
+  | append args =>
+    simp only [applyOp]
+    split
+    · rename_i s' hs; exact wf_append s s' args h hs
+    · exact h
+  | kill m => exact wf_kill s m h
+  | compactify => exact wf_compactify s h
+  | setitem v vals =>
+    simp only [applyOp]
+    split
+    · rename_i s' hs; exact wf_setitem s s' v vals h hl hs
+    · exact h
+
+
+theorem wf_run (s : PState) (ops : List Op) (h : WF s) (hl : AllLengthKeeping s ops) :
+    WF (run s ops) := by
+  induction ops generalizing s with
+  | nil => exact h
+  | cons op ops ih =>
+    exact ih (applyOp s op) (wf_step s op h hl.1) hl.2
 
 /-- **wf_preserved**: every state reachable from the empty state by any sequence of
     appends, deaths, compactifications and (length-keeping) assignments is well-formed. -/
 theorem wf_preserved (ei ep : List String) (d : List (String × Val)) (ops : List Op)
-    (hl : AllLengthKeeping (PState.init ei ep d) ops) : WF (run (PState.init ei ep d) ops) := by
-  sorry
+    (hl : AllLengthKeeping (PState.init ei ep d) ops) : WF (run (PState.init ei ep d) ops) :=
+  wf_run _ ops (wf_init ei ep d) hl
+
+/-- one step: `npid` does not decrease and every pid afterwards is old or fresh -/
+theorem step_pid (s : PState) (op : Op) :
+    s.npid ≤ (applyOp s op).npid ∧ ∀ p ∈ (applyOp s op).pid, p ∈ s.pid ∨ s.npid ≤ p := by
+  cases op with
+  | append args =>
+    simp only [applyOp]
+    split
+    · rename_i s' hs
+      obtain ⟨n, valueOf, rfl⟩ := append_ok s s' args hs
+      refine ⟨Nat.le_add_right _ _, ?_⟩
+      intro p hp
+      simp only [List.mem_append, List.mem_map, List.mem_range] at hp
+      rcases hp with hp | ⟨j, _, rfl⟩
+      · exact Or.inl hp
+      · exact Or.inr (Nat.le_add_left _ _)
+    · exact ⟨Nat.le_refl _, fun p hp => Or.inl hp⟩
+  | kill m => exact ⟨Nat.le_refl _, fun p hp => Or.inl hp⟩
+  | compactify =>
+    simp only [applyOp, PState.compactify]
+    split
+    · exact ⟨Nat.le_refl _, fun p hp => Or.inl hp⟩
+    · exact ⟨Nat.le_refl _, fun p hp => Or.inl ((maskSel_sublist _ _).subset hp)⟩
+  | setitem v vals =>
+    simp only [applyOp]
+    split
+    · rename_i s' hs
+      unfold PState.setitem at hs
+      split at hs
+      · injection hs with hs; subst hs
+        exact ⟨Nat.le_refl _, fun p hp => Or.inl hp⟩
+      · split at hs
+        · injection hs with hs; subst hs
+          exact ⟨Nat.le_refl _, fun p hp => Or.inl hp⟩
+        · cases hs
+    · exact ⟨Nat.le_refl _, fun p hp => Or.inl hp⟩
 
 /-- `npid` never decreases -/
 theorem npid_mono (s : PState) (ops : List Op) : s.npid ≤ (run s ops).npid := by
-  sorry
+  induction ops generalizing s with
+  | nil => exact Nat.le_refl _
+  | cons op ops ih => exact Nat.le_trans (step_pid s op).1 (ih (applyOp s op))
 
 /-- **no pid is ever reused**: a pid present after any further operations is either one of the
     pids present before, or was handed out later (≥ the old `npid`). -/
 theorem pid_never_reused (s : PState) (ops : List Op) (h : WF s) (hl : AllLengthKeeping s ops) :
     ∀ p ∈ (run s ops).pid, p ∈ s.pid ∨ s.npid ≤ p := by
-  sorry
+  induction ops generalizing s with
+  | nil => exact fun p hp => Or.inl hp
+  | cons op ops ih =>
+    intro p hp
+    rcases ih (applyOp s op) (wf_step s op h hl.1) hl.2 p hp with h1 | h1
+    · exact (step_pid s op).2 p h1
+    · exact Or.inr (Nat.le_trans (step_pid s op).1 h1)
+
+/-- in a well-formed state the `alive` column is as long as `pid` -/
+theorem aliveCol_length (s : PState) (h : WF s) : s.aliveCol.length = s.pid.length := by
+  obtain ⟨c, hc, hn⟩ := h.hasAlive
+  unfold PState.aliveCol PState.lookup
+  cases hf : s.ivars.find? (·.1 == "alive") with
+  | none =>
+    have := List.find?_eq_none.1 hf c hc
+    simp [hn] at this
+  | some c' =>
+    exact h.ilen c' (List.mem_of_find?_eq_some hf)
 
 /-- **compactify_is_filter**: compactify keeps exactly the living particles, in order — in the
     pid column and, with the same mask, in every instance column; particle variables and `npid`
@@ -87,22 +351,49 @@ theorem compactify_is_filter (s : PState) (h : WF s) :
     (s.compactify).pid = maskSel s.pid (s.aliveCol.map isTrue) ∧
     (s.compactify).ivars = s.ivars.map (fun c => (c.1, maskSel c.2 (s.aliveCol.map isTrue))) ∧
     (s.compactify).pvars = s.pvars ∧ (s.compactify).npid = s.npid := by
-  sorry
+  have hal := aliveCol_length s h
+  unfold PState.compactify
+  simp only
+  split
+  · rename_i hall
+    refine ⟨?_, ?_, rfl, rfl⟩
+    · exact (maskSel_all_true _ _ (by simp [hal]) hall).symm
+    · symm
+      conv => rhs; rw [← List.map_id s.ivars]
+      apply List.map_congr_left
+      intro c hc
+      have := maskSel_all_true c.2 _ (by simp [hal, h.ilen c hc]) hall
+      simp [this]
+  · exact ⟨rfl, rfl, rfl, rfl⟩
 
-/-- `maskSel` is an order-preserving sublist -/
-theorem maskSel_sublist {α} (l : List α) (m : List Bool) : (maskSel l m).Sublist l := by
-  sorry
+theorem pid_ge_index_aux (l : List Nat) (hs : l.Pairwise (· < ·)) (k : Nat) (hk : k < l.length) :
+    k ≤ l[k] := by
+  induction k with
+  | zero => exact Nat.zero_le _
+  | succ k ih =>
+    have h1 := ih (by omega)
+    have h2 : l[k] < l[k+1] := List.pairwise_iff_getElem.1 hs k (k+1) (by omega) hk (by omega)
+    omega
 
 /-- **record_pid_sorted / pid_ge_index**: in a well-formed state (hence in every output record,
     which is written from such a state) identifiers increase strictly and `pid[k] ≥ k`. -/
 theorem pid_ge_index (s : PState) (h : WF s) (k : Nat) (hk : k < s.pid.length) :
-    k ≤ s.pid[k] := by
-  sorry
+    k ≤ s.pid[k] := pid_ge_index_aux s.pid h.sorted k hk
 
 /-- the doc's remark: `pid[k] = k` for all `k` iff no earlier particle is missing -/
 theorem pid_eq_index_iff (s : PState) (h : WF s) :
     (∀ k (hk : k < s.pid.length), s.pid[k] = k) ↔ s.pid = List.range s.pid.length := by
-  sorry
+  have _ := h
+  constructor
+  · intro hh
+    apply List.ext_getElem (by simp)
+    intro k h1 h2
+    simp [hh k h1]
+  · intro hh k hk
+    have : s.pid[k] = (List.range s.pid.length)[k]'(by simpa using hk) := by
+      congr 1
+    simpa using this
+
 
 /-- **values_follow_particle**: the row of a surviving particle.  `rowAt s k` is the tuple of
     instance values at array position `k`. -/
@@ -116,11 +407,88 @@ def rowOf (s : PState) (p : Nat) : Option (List (String × Option Val)) :=
 
 theorem values_follow_append (s s' : PState) (args : List (String × Arg)) (h : WF s)
     (ha : s.append args = .ok s') (p : Nat) (hp : p ∈ s.pid) : rowOf s' p = rowOf s p := by
-  sorry
+  obtain ⟨n, valueOf, rfl⟩ := append_ok s s' args ha
+  have hsome : (s.pid.idxOf? p).isSome := List.isSome_idxOf?.2 hp
+  obtain ⟨k, hk⟩ := Option.isSome_iff_exists.1 hsome
+  have hklt : k < s.pid.length := (List.idxOf?_eq_some_iff.1 hk).1
+  have hk' : (s.pid ++ (List.range n).map (· + s.npid)).idxOf? p = some k := by
+    unfold List.idxOf? at hk ⊢
+    rw [List.findIdx?_append, hk]
+    rfl
+  unfold rowOf
+  simp only [hk, hk']
+  congr 1
+  unfold rowAt
+  simp only [List.map_map]
+  apply List.map_congr_left
+  intro c hc
+  have : k < c.2.length := by rw [h.ilen c hc]; exact hklt
+  simp [List.getElem?_append_left this]
+
+theorem maskSel_idx {β} (p : Nat) (l : List Nat) (m : List Bool) (hn : l.Nodup)
+    (k k' : Nat) (hk : l.idxOf? p = some k) (hk' : (maskSel l m).idxOf? p = some k')
+    (col : List β) (hc : col.length = l.length) : (maskSel col m)[k']? = col[k]? := by
+  induction l generalizing m k k' col with
+  | nil => simp at hk
+  | cons a as ih =>
+    cases col with
+    | nil => simp at hc
+    | cons c cs =>
+      cases m with
+      | nil => simp [maskSel] at hk'
+      | cons b bs =>
+        have hn' := (List.nodup_cons.1 hn)
+        have hcs : cs.length = as.length := by simpa using hc
+        rw [List.idxOf?_cons] at hk
+        cases b with
+        | true =>
+          have e1 : maskSel (a :: as) (true :: bs) = a :: maskSel as bs := by simp [maskSel]
+          have e2 : maskSel (c :: cs) (true :: bs) = c :: maskSel cs bs := by simp [maskSel]
+          rw [e1, List.idxOf?_cons] at hk'
+          rw [e2]
+          by_cases hap : a = p
+          · subst hap
+            simp only [beq_self_eq_true, if_true, Option.some.injEq] at hk hk'
+            subst hk; subst hk'
+            rfl
+          · have hap' : (a == p) = false := by simpa using hap
+            simp only [hap', Bool.false_eq_true, if_false, Option.map_eq_some_iff] at hk hk'
+            obtain ⟨j, hj, rfl⟩ := hk
+            obtain ⟨j', hj', rfl⟩ := hk'
+            simpa using ih bs hn'.2 j j' hj hj' cs hcs
+        | false =>
+          have e1 : maskSel (a :: as) (false :: bs) = maskSel as bs := by simp [maskSel]
+          have e2 : maskSel (c :: cs) (false :: bs) = maskSel cs bs := by simp [maskSel]
+          rw [e1] at hk'
+          rw [e2]
+          by_cases hap : a = p
+          · exfalso
+            have hs : ((maskSel as bs).idxOf? p).isSome := by simp [hk']
+            have hmem := (maskSel_sublist _ _).subset (List.isSome_idxOf?.1 hs)
+            exact hn'.1 (hap ▸ hmem)
+          · have hap' : (a == p) = false := by simpa using hap
+            simp only [hap', Bool.false_eq_true, if_false, Option.map_eq_some_iff] at hk
+            obtain ⟨j, hj, rfl⟩ := hk
+            simpa using ih bs hn'.2 j k' hj hk' cs hcs
 
 theorem values_follow_compactify (s : PState) (h : WF s)
     (p : Nat) (hp : p ∈ (s.compactify).pid) : rowOf s.compactify p = rowOf s p := by
-  sorry
+  obtain ⟨hpid, hiv, _, _⟩ := compactify_is_filter s h
+  have hnd : s.pid.Nodup := h.sorted.imp (fun hab => Nat.ne_of_lt hab)
+  have hp0 : p ∈ s.pid := by
+    rw [hpid] at hp
+    exact (maskSel_sublist _ _).subset hp
+  obtain ⟨k, hk⟩ := Option.isSome_iff_exists.1 (List.isSome_idxOf?.2 hp0)
+  obtain ⟨k', hk'⟩ := Option.isSome_iff_exists.1 (List.isSome_idxOf?.2 hp)
+  unfold rowOf
+  simp only [hk, hk']
+  congr 1
+  unfold rowAt
+  rw [hiv, List.map_map]
+  apply List.map_congr_left
+  intro c hc
+  rw [hpid] at hk'
+  simp [maskSel_idx p s.pid _ hnd k k' hk hk' c.2 (h.ilen c hc)]
 
 /-! non-vacuity -/
 example : ∃ s, (PState.init ["age"] ["w0"] []).append [("X", .array [.num 1, .num 2]), ("Y", .scalar (.num 0)), ("Z", .scalar (.num 0))] = .ok s
